@@ -15,6 +15,9 @@
 (* characters from W, D, WM (and the letters of R), and ns does not begin  *)
 (* with the reserved word.                                                 *)
 (***************************************************************************)
+(* The verdict is a function of the name alone: the conformance run decides every   *)
+(* pair twice, the second time after the same words were validated in the opposite *)
+(* roles (a validator that remembers earlier answers must still agree).            *)
 EXTENDS Naturals, Sequences, FiniteSets, TLC, Json
 
 Seg(c, n) == [c |-> c, n |-> n]
